@@ -1,5 +1,6 @@
 //! Which scenarios / run classes decide which property, with budgets per tier.
 use crate::driver::ClassSpec;
+use crate::sc_crypt::CRYPT;
 use crate::sc_entropy::ENTROPY;
 use crate::sc_pok::POK;
 use crate::sc_sign::SIGN;
@@ -96,6 +97,27 @@ pub fn spec(id: &str) -> Option<PropSpec> {
                 vec!["cur-blst"],
             )
         }),
+        "C11" => Some(base(
+            vec![cs(&CRYPT, "sc-roundtrip", 1200, 24000, false), cs(&CRYPT, "sc-tamper", 1500, 30000, false), cs(&CRYPT, "sc-bitflip-all", 6, 36, false)],
+            "cases = (group, scheme, message length {0..40, 100..140, LEB128 boundaries 127/128, 16383/16384, 64 KiB}, codec at rest, crash/duplicate faults | relay perturbation kind {u, v bit/length/prefix, w, label, splices, in-flight truncation/extension/bit flip} | every single bit of a short ciphertext in `sc-bitflip-all`); \
+             non-trivial = any altered ciphertext or a run with crash/duplicate faults",
+            vec!["cur-blst"],
+        )),
+        "C12" => Some(base(
+            vec![cs(&CRYPT, "td-subsets", 60, 60, true), cs(&CRYPT, "td-protocol", 500, 10000, false)],
+            "cases = (group, ciphertext scheme, t, n, share subset and order | arrival history under loss/duplication/reordering) and every (share, key share, ciphertext) mismatch; class `td-subsets` enumerates 2<=t<=n<=5 x 3 schemes x 2 groups with every subset; non-trivial = proper subsets, mismatches",
+            vec!["cur-blst"],
+        )),
+        "C13" => Some(base(
+            vec![cs(&CRYPT, "tl-beacon", 500, 10000, false), cs(&CRYPT, "tl-tamper", 1200, 24000, false), cs(&CRYPT, "tl-bitflip-all", 6, 36, false)],
+            "cases = (group, scheme, beacon kind {whole key, t-of-n recombined over a lossy/duplicating transport}, message length, identifier kind, fault-script length | perturbation kind distinguishing header, authenticated prefix of w and padding | every single bit in `tl-bitflip-all`); non-trivial = recombined beacons, runs with faults, all altered ciphertexts",
+            vec!["cur-blst"],
+        )),
+        "C14" => Some(base(
+            vec![cs(&CRYPT, "eg-tally", 500, 10000, false), cs(&CRYPT, "eg-proof-tamper", 800, 16000, false)],
+            "cases = (group, number of voters, which ballots arrived in which order under loss/duplication/delay, fault-script length) with conservation oracle, threshold share subset; proof perturbation kind over (c1, c2, message_proof, blinder_proof, challenge, pk); non-trivial = sums of >1 ciphertext, runs with faults, all altered proofs",
+            vec!["cur-blst"],
+        )),
         "C20" => Some(PropSpec {
             needs_entropy: true,
             needs_clock: true,
